@@ -10,6 +10,7 @@ if grep -rnE '\b(Admitted|admit|Axiom|Axioms|Parameter|Parameters|Conjecture|Uns
   echo "setup: forbidden construct found"; exit 1
 fi
 /venv/bin/python -W ignore harness/gen_all.py
+/venv/bin/python harness/hygiene.py || { echo "setup: hygiene gate failed"; exit 1; }
 cd coq
 rm -f Makefile Makefile.conf .Makefile.d
 find . -name '*.vo' -o -name '*.vok' -o -name '*.vos' -o -name '*.glob' -o -name '.*.aux' | xargs rm -f
